@@ -53,6 +53,7 @@ impl Compiler {
                 break_jumps: Vec::new(),
                 continue_jumps: Vec::new(),
                 is_for_loop: false,
+                scope_depth: self.scopes.len(),
             });
 
             self.emit_b(OpCode::WhileLoopLt, iter_reg, 1, condition.span);
@@ -89,6 +90,7 @@ impl Compiler {
             break_jumps: Vec::new(),
             continue_jumps: Vec::new(),
             is_for_loop: false,
+            scope_depth: self.scopes.len(),
         });
 
         let cond_reg = self.alloc_register()?;
